@@ -51,7 +51,8 @@ ARG1 = ["int", "float", "str", "A", "object"]
 def _grammar(level):
   if level == 0:   # directed runs for the recorded findings
     return [("bool",), ("List", ("int",)), ("Iterable", ("float",)),
-            ("Optional", ("List", ("int",))), ("int",), ("Tuple2", ("int",), ("str",))]
+            ("Optional", ("List", ("int",))), ("int",), ("Tuple2", ("int",), ("str",)),
+            ("Callable2", ("int",), ("str",)), ("Callable1", ("int",))]
   g = [(s,) for s in SCALARS]
   full = level >= 1
   for c in ("List", "Sequence", "Iterable", "TupleN", "Set", "Optional"):
@@ -139,7 +140,7 @@ VALUES = [
     "{}", "{'s': 1}", "{1: 's'}", "{'s': 1.5}", "{'s': [1]}", "{'s': (1, 2)}",
     "{1}", "{'s'}", "{(1, 's')}",
     "A", "B", "C", "int", "bool",
-    "g0", "g1", "g2", "g1d",
+    "g0", "g1", "g2", "g1d", "gk", "gkr",
 ]
 if LEVEL >= 3:
   VALUES += [
@@ -162,6 +163,8 @@ def g0(): return 1
 def g1(x): return 1
 def g2(x, y): return 1
 def g1d(x, y=0): return 1
+def gk(a, b, *, k=0): return 1
+def gkr(a, *, k): return 1
 """
 
 GRAMMAR = _grammar(LEVEL)
@@ -469,6 +472,14 @@ def _hetero(v):
   return False
 
 
+def _required_kwonly(v):
+  import inspect  # pylint: disable=g-import-not-at-top
+  if not inspect.isfunction(v):
+    return False
+  return any(p.kind is p.KEYWORD_ONLY and p.default is p.empty
+             for p in inspect.signature(v).parameters.values())
+
+
 def kf_class(t, v, site):
   """Recorded-finding class of one (annotation, value, site) comparison."""
   if t == ("bool",) and v is None:
@@ -477,6 +488,8 @@ def kf_class(t, v, site):
     return "arg-any-view"
   if site == "asg" and v is None and not member(v, t):
     return "asg-none-allowed"
+  if t[0] in ("Callable0", "Callable1", "Callable2") and _required_kwonly(v) and not member(v, t):
+    return "callable-kwonly-arity"
   return None
 
 
